@@ -231,6 +231,87 @@ def stepNode (s : NSt) (ts : List String) : NSt × String :=
     match parseNat? n with
     | some n => (s, rootStr "ext" (recreate s.mmr (n - 1)))
     | none => (s, "bad-op")
+  | ["bp", last, ids] =>
+    -- `GetBlocksProofProcess::execute` + `reply_proof` (util/light-client-protocol-server), code as is
+    match parseNat? last, parseNatList? ids with
+    | some last, some ids =>
+      if ids.isEmpty then (s, "banned")                                   -- "no block"
+      else if !(s.chain.contains last) then                               -- last_hash not on the main chain
+        let tip := s.chain.getLastD 0
+        let tipN := tip % 10000
+        (s, if tipN = 0 then s!"tip {tip} root -" else
+          match getRoot pmerge (recreate s.mmr (tipN - 1)) with
+          | some (some r) => s!"tip {tip} root {r.render}"
+          | _ => "err")
+      else if (ids ++ [last]).eraseDups.length ≠ ids.length + 1 then (s, "banned")  -- duplicate hash
+      else
+        let found := ids.filter fun i => s.chain.contains i
+        let missing := ids.length - found.length
+        let n := last % 10000
+        -- `chain_root_mmr(last_block.number() - 1)`: u64 subtraction, overflow checks are on in release
+        if n = 0 then (s, "panic")
+        else
+          let m := recreate s.mmr (n - 1)
+          match getRoot pmerge m with
+          | some (some root) =>
+            if found.isEmpty then (s, s!"proof - root {root.render} headers=- missing={missing}")
+            else
+              match (genProof pmerge m (found.map fun i => leafIndexToPos (i % 10000))).bind allSome with
+              | some p => (s, s!"proof {renderList p} root {root.render} headers={showNatList found} missing={missing}")
+              | none => (s, "err")
+          | _ => (s, "err")
+    | _, _ => (s, "bad-op")
+  | ["extv", pn, len, src, x] =>
+    match parseNat? pn with
+    | none => (s, "bad-op")
+    | some pn =>
+      let rootAt (k : Nat) : Option Term :=
+        match getRoot pmerge (recreate s.mmr k) with
+        | some (some r) => some r
+        | _ => none
+      let actual := rootAt pn
+      -- the committed 32 bytes are the hash of `rootAt k` (collision-free hashing: equal iff equal terms)
+      let committed : Option Term :=
+        if src = "flip" then none
+        else match src.splitOn ":" with
+          | ["at", k] => (parseNat? k).bind rootAt
+          | _ => none
+      let extLen : Option Nat := if len = "none" then none else parseNat? len
+      let extraFields := if len = "none" then 0 else 1
+      -- fewer than 32 bytes never reach the comparison; with >= 32 bytes the prefix is the committed hash
+      let prefixIsRoot := actual.isSome && committed == actual
+      let v := extensionVerdict true extraFields extLen actual.isSome prefixIsRoot (x != "x")
+      (s, match v with
+        | .ok => "ok"
+        | .noBlockExtension => "NoBlockExtension"
+        | .unknownFields => "UnknownFields"
+        | .emptyBlockExtension => "EmptyBlockExtension"
+        | .exceededMaximum => "ExceededMaximumBlockExtensionBytes"
+        | .invalidBlockExtension => "InvalidBlockExtension"
+        | .invalidChainRoot => "InvalidChainRoot"
+        | .invalidExtraHash => "InvalidExtraHash"
+        | .internalMMR => "other:internal")
+  | ["lsp", last, _, _, _, _, _, kind, numbers] =>
+    -- the sampling of GetLastStateProof is not modelled: the harness reports which block numbers the
+    -- real reply carried; the model says what the proof and the roots for exactly those must be
+    if kind ≠ "proof" then (s, kind) else
+    match parseNat? last, parseNatList? numbers with
+    | some last, some numbers =>
+      let n := last % 10000
+      let m := recreate s.mmr (n - 1)
+      let rootOf (k : Nat) : String :=
+        if k = 0 then "-" else
+        match getRoot pmerge (recreate s.mmr (k - 1)) with
+        | some (some r) => r.render
+        | _ => "?"
+      let roots := if numbers.isEmpty then "-" else ";".intercalate (numbers.map rootOf)
+      let proofStr :=
+        if numbers.isEmpty then some "-" else
+        ((genProof pmerge m (numbers.map leafIndexToPos)).bind allSome).map renderList
+      match proofStr, getRoot pmerge m with
+      | some p, some (some root) => (s, s!"proof {p} root {root.render} roots={roots}")
+      | _, _ => (s, "err")
+    | _, _ => (s, "bad-op")
   | ["proof", n, idxs] =>
     match parseNat? n, parseNatList? idxs with
     | some n, some idxs =>
